@@ -108,7 +108,8 @@ def crossratio(
         if not np.all(collinear):
             raise NotCollinear("The points are not collinear: " + str([a, b, c, d]))
 
-        basis = np.stack(np.broadcast_arrays(a.array, b.array), axis=-2)
+        # coordinates with respect to a and b (the conjugate keeps the reduction injective for complex points)
+        basis = np.conjugate(np.stack(np.broadcast_arrays(a.array, b.array), axis=-2))
         a = matvec(basis, a.array)
         b = matvec(basis, b.array)
         c = matvec(basis, c.array)
